@@ -143,6 +143,9 @@ func (rp *Republisher) run(ctx context.Context, timeoutShort, timeoutLong time.D
 				// Break to the end of the switch to cleanup any
 				// timers.
 				toPublish = cid.Undef
+				// Nothing is left to retry, so resume reading waiters
+				// in case a failed publish stopped that.
+				immediatePublish = rp.immediatePublish
 				break
 			}
 
